@@ -580,6 +580,7 @@ def run(ctx):
                 'random-many-open')
     check_batch(ctx, [many_open(rng, 20)], 'random-many-open+readers', readers=True)
     two_queues(ctx)
+    readers_sharing_queue(ctx)
     # through the readers as well
     sample = [random_wf(rng, max_groups=4, max_size=4) for _ in range(ctx.budget(120, 1500))]
     for sizes, nu in QUICK_CONFIGS[:6]:
@@ -670,6 +671,77 @@ def two_queues(ctx):
                 break
 
 
+def _read_batches(lines, cuts, kinds, index):
+    """the lines in consecutive batches, every batch through a NEW reader (used and closed like a rotated log file) that
+    feeds the SAME TagBlockQueue -> the lists the queue delivered, in order"""
+    import io
+    import pyais.stream as ps
+    tbq = ps.TagBlockQueue()
+    out = []
+    bounds = [0] + list(cuts) + [len(lines)]
+    for (a, b), kind in zip(zip(bounds, bounds[1:]), kinds):
+        batch = lines[a:b]
+        if kind == 'IterMessages':
+            for _ in ps.IterMessages(batch, tbq=tbq):
+                pass
+        elif kind == 'ByteStream':
+            with ps.ByteStream(iter(batch), tbq=tbq) as r:
+                for _ in r:
+                    pass
+        else:
+            with ps.BinaryIOStream(io.BytesIO(b''.join(x + b'\n' for x in batch)), tbq=tbq) as r:
+                for _ in r:
+                    pass
+        out.extend(view_lists(drain(tbq), index))
+    return out
+
+
+def readers_sharing_queue(ctx):
+    """A TagBlockQueue that outlives its readers: the sentences arrive in several batches, each read by a new reader object
+    (closed afterwards) attached to the same queue -- a group that starts in one batch and ends in a later one must still be
+    delivered complete and once (bookkeeping wiped or kept wrongly when a reader ends shows only here)."""
+    rng, rep = ctx.rng, ctx.rep
+    for rnd in range(ctx.budget(25, 250)):
+        items, order = random_wf(rng, max_groups=3, max_size=4)
+        if len(order) < 2 or any(it.bare.startswith(b'$') for it in items):
+            continue
+        lines = [items[k].line for k in order]
+        grps = [items[k].grp for k in order]
+        index = by_content([(items[k].bare, items[k].tb) for k in order])
+        cuts = sorted(rng.sample(range(1, len(lines)), min(len(lines) - 1, rng.choice([1, 1, 2]))))
+        kinds = [rng.choice(['BinaryIOStream', 'BinaryIOStream', 'ByteStream', 'IterMessages']) for _ in range(len(cuts) + 1)]
+        rep.case(('readers-sharing-queue', tuple(lines), tuple(cuts), tuple(kinds)), kind='readers-sharing-queue')
+        wf, want = (True, py_spec(grps))
+        if ctx.model:
+            wf, want = parse_spec(ctx.model.ask('tbqspec ' + ' '.join(grp_tok(g) for g in grps)))
+        if not wf:
+            continue
+        flat = [lst for st in want for lst in st]
+        try:
+            got = _read_batches(lines, cuts, kinds, index)
+        except Exception as e:   # noqa: BLE001
+            got = exc_view(e)
+        if got != flat:
+            rep.violation({'entry': 'readers sharing a queue', 'component': 'delivery', 'kind': 'lost-or-changed-across-readers'},
+                          f'{len(lines)} sentences read in batches {cuts} by {kinds} attached to ONE TagBlockQueue: the queue '
+                          f'delivered {got}, the specification gives {flat}',
+                          {'readers_sharing_queue': True, 'lines': [x.hex() for x in lines], 'cuts': cuts, 'kinds': kinds,
+                           'grps': [grp_tok(g) for g in grps], 'keys': [[items[k].bare.hex(), tb_tok(items[k].tb)] for k in order]})
+            break
+
+
+def replay_readers_sharing_queue(data):
+    lines = [bytes.fromhex(x) for x in data['lines']]
+    index = by_content([(bytes.fromhex(b), None if t == 'None' else (b'' if t == '-' else bytes.fromhex(t))) for b, t in data['keys']])
+    grps = [None if g == 'None' else tuple(int(x) for x in g.split(',')) for g in data['grps']]
+    flat = [lst for st in py_spec(grps) for lst in st]
+    try:
+        got = _read_batches(lines, data['cuts'], data['kinds'], index)
+    except Exception as e:   # noqa: BLE001
+        return f'raised {type(e).__name__}'
+    return None if got == flat else f'the shared queue delivered {got}, the specification gives {flat}'
+
+
 def replay_two_queues(data):
     from pyais.stream import TagBlockQueue
     from pyais.messages import TagBlock, NMEASentenceFactory
@@ -709,6 +781,8 @@ def hunt(ctx):
 def replay(ctx, data):
     if data.get('two_queues'):
         return replay_two_queues(data)
+    if data.get('readers_sharing_queue'):
+        return replay_readers_sharing_queue(data)
     import vlib
     rep = vlib.Report('C17', 'quick', 0)
 
